@@ -59,6 +59,15 @@ ReferentialClosurePreserved(d, out) ==
       LET of == out.fams[fk] IN
       /\ \A s \in of.src : \A r \in RefsOfInputFamily(Side(d, s[1]).fams[s[2]]) : RefOK(d, out, of, s, r)
       /\ \A o \in OutRefs(of) : OutRefMeaningful(d, out, of, o)
+\* the links from individuals to families: every family an input individual belongs to (as a spouse: FAMS, as a
+\* child: FAMC) is named by the output individual under a pointer that resolves to a record stemming from that family
+FamilyLinksPreserved(d, out) ==
+  \A k \in Idx(out.people) : \A s \in out.people[k].src :
+    LET doc == Side(d, s[1])  me == doc.people[s[2]].p IN
+    \A fi \in Idx(doc.fams) :
+      LET f == doc.fams[fi] IN
+      /\ (me \in {f.husb, f.wife} => \E v \in SeqToSet(out.people[k].fams) : \E q \in Idx(out.fams) : out.fams[q].p = v /\ <<s[1], fi>> \in out.fams[q].src)
+      /\ (me \in SeqToSet(f.chil) => \E v \in SeqToSet(out.people[k].famc) : \E q \in Idx(out.fams) : out.fams[q].p = v /\ <<s[1], fi>> \in out.fams[q].src)
 EveryFamilyAccounted(d, out) ==
   \A s \in {<<"L", i>> : i \in Idx(d.left.fams)} \cup {<<"R", i>> : i \in Idx(d.right.fams)} :
      \E fk \in Idx(out.fams) : s \in out.fams[fk].src
